@@ -1,5 +1,6 @@
 import SparkxVerif.Core.Proto
 import SparkxVerif.Core.Jets
+import SparkxVerif.Gen.Jets
 
 /-! driver ops for C20 (floats as 16-hex-digit bit patterns, `-` = `None`):
   `norm <R> <etaA> <etaB> <ptA> <ptB>`
@@ -12,9 +13,20 @@ import SparkxVerif.Core.Jets
         jets   = `.` | `pt,eta,px,py,pz,e,dr:dr:…;…`  (one `delta_r` per particle of the event, `.` if none)
         file   = `none` | `.` | rows `J,ev,px,py,pz,e` / `P,i,pid,ev` / `O,idx,tag` joined by `;`
   `read <idx;idx;…>` -> `ok <group sizes ;-joined | .>`
+ops on the functions REGENERATED from the current source (`Gen/Jets.lean`, tie T), evaluated at `Float`:
+  `gnorm …` / `gread …`  as `norm` / `read`, through `genNormalise` / `genRead`
+  `grun <R> <etaA> <etaB> <ptA> <ptB> <onlyCharged> <prior> <events>` -> `ok <file after genPerform>` | `err value`
+  `gdr <etaP> <etaJ> <dphi>` -> `ok <genDeltaR>`  (`fjEta`, `fjDphi` = the given values)
+  `gpj <parts>` -> `ok px,py,pz,e;…` (`genPseudoJets`)
+  `gfill <R> <neg|pos> <t|f> <parts> <dr:dr:…>` -> `ok <positions ;-joined | .>` | `err value` (`genFill`)
+  `gsub <px,py,pz,e> <parts>` -> `ok px,py,pz,e` (`genSubtract`, every given particle is a hole)
+  `gwrite <ptHi | +inf> <prior> <newfile t|f> <event> <px,py,pz,e> <parts>` -> `ok <file> <returned flag>` (`genWriteJetOutput`,
+        the given particles are the associated ones)
+  `glayout` -> `ok <jet cells> <particle cells> <reader columns>` on the probe values event 7, index 5, position 3,
+        momenta (1,2,3,4) / (5,6,7,8), status 27
 -/
 namespace SparkxVerif.Drv.C20
-open SparkxVerif.Proto SparkxVerif.Jets
+open SparkxVerif.Proto SparkxVerif.Jets SparkxVerif.Gen.Jets
 
 def optF? (s : String) : Option (Option Float) :=
   if s == "-" then some none else (floatOfHex? s).map some
@@ -107,6 +119,99 @@ def showFS : FS Float → String
   | none => "none"
   | some rs => showRows rs
 
+
+def mom? (s : String) : Option (Mom Float) :=
+  match s.splitOn "," with
+  | [px, py, pz, e] => do
+      let px ← floatOfHex? px
+      let py ← floatOfHex? py
+      let pz ← floatOfHex? pz
+      let e ← floatOfHex? e
+      pure ⟨px, py, pz, e⟩
+  | _ => none
+
+def showMom (m : Mom Float) : String :=
+  s!"{floatToHex m.px},{floatToHex m.py},{floatToHex m.pz},{floatToHex m.e}"
+
+def showMomDec (m : Mom Float) : String := s!"{m.px},{m.py},{m.pz},{m.e}"
+
+def showCell : Cell Float → String
+  | .nat n => s!"nat:{n}"
+  | .perp m => s!"perp:{showMomDec m}"
+  | .eta m => s!"eta:{showMomDec m}"
+  | .phi m => s!"phi:{showMomDec m}"
+  | .val a => s!"val:{a}"
+  | .status none => "status:nan"
+  | .status (some k) => s!"status:{k}"
+  | .pdg k => s!"pdgof:{k}"
+
+def showCol : ColType × Nat → String
+  | (.int, k) => s!"int:{k}"
+  | (.float, k) => s!"float:{k}"
+
+def ext? (s : String) : Option (Ext Float) :=
+  if s == "+inf" then some .pinf else if s == "-inf" then some .ninf else (floatOfHex? s).map .fin
+
+def handleGen : List String → String
+  | ["gnorm", r, ea, eb, pa, pb] =>
+    match raw? r ea eb pa pb "f" with
+    | some raw =>
+      match genNormalise raw with
+      | .ok P => s!"ok {floatToHex P.R} {showExt P.etaLo} {showExt P.etaHi} {showExt P.ptLo} {showExt P.ptHi}"
+      | .error _ => "err value"
+    | none => "bad-op"
+  | ["grun", r, ea, eb, pa, pb, oc, prior, evs] =>
+    match raw? r ea eb pa pb oc, prior? prior, (dotList evs '/').mapM event? with
+    | some raw, some prior, some evs =>
+      match genPerform Float.sqrt raw prior evs with
+      | .ok f => s!"ok {showFS f}"
+      | .error _ => "err value"
+    | _, _, _ => "bad-op"
+  | ["gread", idxs] =>
+    match (dotList idxs ';').mapM String.toNat? with
+    | some is =>
+      let gs := genRead (fun (p : Nat × Nat) => p.2) ((List.range is.length).zip is)
+      "ok " ++ (if gs.isEmpty then "." else ";".intercalate (gs.map (fun g => toString g.length)))
+    | none => "bad-op"
+  | ["gdr", ep, ej, dp] =>
+    match floatOfHex? ep, floatOfHex? ej, floatOfHex? dp with
+    | some ep, some ej, some dp =>
+      let t : Triple Float := (0, ⟨some 0, true, ⟨0, 0, 0, 0⟩⟩, 0)
+      "ok " ++ floatToHex (genDeltaR Float.sqrt (fun _ => ep) (fun _ => dp) ej t)
+    | _, _, _ => "bad-op"
+  | ["gpj", ps] =>
+    match (dotList ps ';').mapM part? with
+    | some parts =>
+      let ms := genPseudoJets parts
+      "ok " ++ (if ms.isEmpty then "." else ";".intercalate (ms.map showMom))
+    | none => "bad-op"
+  | ["gfill", r, sel, only, ps, drs] =>
+    match floatOfHex? r, (if sel == "neg" then some Sel.negative else if sel == "pos" then some Sel.positive else none),
+        bool? only, (dotList ps ';').mapM part?, (dotList drs ':').mapM floatOfHex? with
+    | some r, some sel, some only, some parts, some ds =>
+      if ds.length != parts.length then "bad-op" else
+      match genFill r sel only (triples parts ds) with
+      | .ok ts => "ok " ++ (if ts.isEmpty then "." else ";".intercalate (ts.map (fun t => toString t.1)))
+      | .error _ => "err value"
+    | _, _, _, _, _ => "bad-op"
+  | ["gsub", m, ps] =>
+    match mom? m, (dotList ps ';').mapM part? with
+    | some m, some parts =>
+      "ok " ++ showMom (genSubtract m (triples parts (parts.map (fun _ => (0.0 : Float)))))
+    | _, _ => "bad-op"
+  | ["gwrite", hi, prior, nf, ev, m, ps] =>
+    match ext? hi, prior? prior, bool? nf, ev.toNat?, mom? m, (dotList ps ';').mapM part? with
+    | some hi, some prior, some nf, some ev, some m, some parts =>
+      let P : Params Float := ⟨1.0, .ninf, .pinf, .fin 0.0, hi, false⟩
+      let r := genWriteJetOutput Float.sqrt P prior m (triples parts (parts.map (fun _ => (0.0 : Float)))) ev nf
+      s!"ok {showFS r.1} {if r.2 then "t" else "f"}"
+    | _, _, _, _, _, _ => "bad-op"
+  | ["glayout"] =>
+    let jc := genJetCells 7 (⟨1, 2, 3, 4⟩ : Mom Float)
+    let pc := genPartCells 5 7 ((3, ⟨some 27, true, ⟨5, 6, 7, 8⟩⟩, 0.5) : Triple Float)
+    s!"ok {";".intercalate (jc.map showCell)} {";".intercalate (pc.map showCell)} {";".intercalate (genReadCols.map showCol)}"
+  | _ => "bad-op"
+
 def handle : List String → String
   | ["norm", r, ea, eb, pa, pb] =>
     match raw? r ea eb pa pb "f" with
@@ -128,6 +233,6 @@ def handle : List String → String
       let gs := read (fun (p : Nat × Nat) => p.2) ((List.range is.length).zip is)
       "ok " ++ (if gs.isEmpty then "." else ";".intercalate (gs.map (fun g => toString g.length)))
     | none => "bad-op"
-  | _ => "bad-op"
+  | l => handleGen l
 
 end SparkxVerif.Drv.C20
